@@ -30,6 +30,11 @@ ASSUMPTIONS = ["lmfit's optimiser is symmetric under a global sign flip of "
                "data, amplitudes and amplitude bounds"]
 
 MUTANTS = [
+    ("fractional error terms selected by the sign of the ratio",
+     "AegeanTools/fitting.py",
+     "              source.peak_flux) ** 2 if source.err_peak_flux > 0 else 0",
+     "              source.peak_flux) ** 2 if source.err_peak_flux / "
+     "source.peak_flux > 0 else 0", "C13-R7"),
     ("background subtracted only when it has positive pixels",
      "AegeanTools/source_finder.py",
      "        img -= self.global_data.bkgimg\n",
@@ -274,6 +279,7 @@ def run(ctx):
     r4(ctx, prog)
     r5_fields(ctx, prog)
     r6_guards(ctx, prog)
+    r7_error_symmetry(ctx, prog)
 
 
 def _stmt(pm, n):
@@ -655,3 +661,78 @@ def r5_fields(ctx, prog):
             "the negated catalogue" % (attr, WORD[want][:9],
                                        WORD.get(pv, pv)), node=st)
     ctx.floor("C13-R5", n, 8, "catalogue fields with a parity")
+
+
+def r7_error_symmetry(ctx, prog):
+    """the uncertainty of the integrated flux is the same for a source and
+    its negative"""
+    from ..concrete import Unknown, run
+    ctx.rule("C13-R7", "errors are unchanged under negation: the block of "
+             "fitting.errors that combines the fractional errors into "
+             "err_int_flux is interpreted for a positive source and for its "
+             "mirror image (peak_flux and int_flux negated, all errors and "
+             "shapes equal) and must give the same value")
+    n = 0
+    for short in ("fitting.errors", "fitting.new_errors"):
+        if not prog.has_func(short):
+            continue
+        fi = prog.func(short)
+        body = fi.node.body
+        # the last top-level statement that stores err_int_flux from a
+        # computed value, and the top-level statements feeding it
+        idx = None
+        for k, st in enumerate(body):
+            for x in ast.walk(st):
+                if isinstance(x, ast.Assign) and any(
+                        isinstance(t, ast.Attribute) and
+                        t.attr == "err_int_flux" for t in x.targets) and \
+                        not isinstance(x.value, (ast.Name, ast.Constant)):
+                    idx = k
+        if idx is None:
+            continue
+        need = {nm for nm in names_in(body[idx])}
+        start = idx
+        for k in range(idx - 1, -1, -1):
+            st = body[k]
+            tg = set()
+            for x in ast.walk(st):
+                if isinstance(x, (ast.Assign, ast.AugAssign)):
+                    for t in (x.targets if isinstance(x, ast.Assign)
+                              else [x.target]):
+                        if isinstance(t, ast.Name):
+                            tg.add(t.id)
+            if tg & need and not isinstance(st, (ast.For, ast.While,
+                                                  ast.Return)):
+                need |= names_in(st)
+                start = k
+            elif tg & need:
+                break
+        block = [st for st in body[start:idx + 1]
+                 if isinstance(st, (ast.Assign, ast.AugAssign, ast.If))
+                 and (names_in(st) & need)]
+        src = fi.params[0]
+        res = []
+        try:
+            for sign in (1.0, -1.0):
+                env = {"ERR_MASK": -1, "flags.NOTFIT": 16, "flags.FITERR": 2}
+                vals = {"peak_flux": 2.0 * sign, "err_peak_flux": 0.1,
+                        "int_flux": 2.6 * sign, "a": 30.0, "err_a": 0.5,
+                        "b": 20.0, "err_b": 0.4, "pa": 10.0, "err_pa": 1.0,
+                        "flags": 0}
+                for k_, v_ in vals.items():
+                    env["%s.%s" % (src, k_)] = v_
+                run(block, env)
+                res.append(env.get("%s.err_int_flux" % src))
+        except Unknown as u:
+            ctx.unknown_site("C13-R7", fi, "err_int_flux block not "
+                             "interpreted (%s)" % u, node=body[idx])
+            continue
+        n += 1
+        ok = res[0] is not None and res[0] == res[1]
+        ctx.check("C13-R7", fi, "err_int_flux for a source and its mirror "
+                  "image: %s / %s" % tuple(res), ok,
+                  "the uncertainty of the integrated flux differs between a "
+                  "source (%s) and the same source with negated fluxes (%s): "
+                  "a term is selected by the sign of a flux-dependent "
+                  "quantity" % tuple(res), node=body[idx])
+    ctx.floor("C13-R7", n, 1, "err_int_flux computations interpreted")
